@@ -34,6 +34,43 @@ WRAPPERS = {'sets_of_k_rdm': 'sets_k_fold_rdm', 'sets_of_k_pattern': 'sets_k_fol
 SELECTORS = ('subset', 'subsample', 'subset_pattern', 'subsample_pattern')
 
 
+def test_entries_from_test_rdms(ctx, obs, rule='TEST-RDMS'):
+    """sets_k_fold splits the patterns of the TRAINING RDMs with sets_k_fold_pattern, which also returns "test" entries cut from those
+    training RDMs; every one of them has to be replaced by the same patterns of the TEST RDMs.  The replacement
+    `test_new[i][0] = rdms_test.subset_pattern(..)` must therefore run for every fold - under a condition on an option (k_pattern)
+    the folds for which it is false keep training RDMs as their test data."""
+    prog = ctx.prog
+    q = CV + 'sets_k_fold'
+    f = prog.func(q)
+    stores = [st for st in ast.walk(f.node) if isinstance(st, ast.Assign) and isinstance(st.targets[0], ast.Subscript)
+              and isinstance(st.value, ast.Call) and isinstance(st.value.func, ast.Attribute) and st.value.func.attr in ('subset_pattern', 'subsample_pattern')
+              and isinstance(st.value.func.value, ast.Name) and 'test' in st.value.func.value.id]
+    con = 'the test entries of every fold are cut from the test RDMs'
+    if not stores:
+        obs.unk(rule, q, con, 'no `test_new[i][0] = rdms_test.subset_pattern(..)` store recognised', where(prog, f, f.node))
+        return
+    parents = {}
+    for p_ in ast.walk(f.node):
+        for ch in ast.iter_child_nodes(p_):
+            parents[id(ch)] = p_
+    for st in stores:
+        guards = []
+        n = parents.get(id(st))
+        while n is not None and n is not f.node:
+            if isinstance(n, ast.If):
+                guards.append(n)
+            n = parents.get(id(n))
+        opt = [g for g in guards if any(isinstance(x, ast.Name) and x.id in f.params for x in ast.walk(g.test))]
+        if opt:
+            obs.bad(rule, q, con, f'`{norm(st)[:70]}` only runs when `{norm(opt[0].test)[:40]}`: otherwise the test entries remain the cut of '
+                    f'the TRAINING RDMs that sets_k_fold_pattern returned - models are tested on the data they were fitted to',
+                    where(prog, f, st))
+        elif guards:
+            obs.unk(rule, q, con, f'`{norm(st)[:70]}` is guarded by `{norm(guards[0].test)[:40]}`', where(prog, f, st))
+        else:
+            obs.ok(rule, q, con, '', where(prog, f, st))
+
+
 def factor_pairing(ctx, obs, rule='FACTOR'):
     """Set generators that fold over two factors keep them apart: a quantity derived from the RDM grouping (rdm_descriptor) is
     combined (%, //, /, *, comparison, range) only with the RDM fold count (k_rdm / n_rdm), a quantity derived from the pattern
@@ -92,6 +129,7 @@ def run(ctx, obs):
     from .c10 import keep_index
     keep_index(ctx, obs)
     # the set generators select by descriptor VALUE (subset / subsample ...): the selectors find the positions from the values
+    test_entries_from_test_rdms(ctx, obs)
     from ..rules.containers import selection_consults_descriptor
     for _m in SELECTORS:
         selection_consults_descriptor(ctx, obs, 'rdm.rdms.RDMs.' + _m)
